@@ -19,7 +19,6 @@ CancelVsComplete): the acknowledged task status is never overwritten by the canc
 from __future__ import annotations
 
 import json
-import os
 import random
 import shutil
 
